@@ -75,9 +75,11 @@ CLAIMS = {
             "brotli internals, time and memory proportions, recursion depth of block skipping."),
     "C09": ("§5 C09",
             "Solver-decided for the block serialisation kernel: a refused file start (name > 65536 bytes) writes nothing; a content source "
-            "shorter than the announced size is never reported as success; a successful dump writes exactly header + announced bytes.",
+            "shorter than the announced size is never reported as success; a successful dump writes exactly header + announced bytes; "
+            "finalize() while a file is open is refused and leaves the writer state and the sink unchanged.",
             CONTRACT_NOTE + "Not decided: everything that needs ArchiveWriter's state (files_info / ids_info / hashes HashMaps): duplicate names, "
-            "unknown or ended ids, finalisation order (seeded change C09-B there is missed; even HashMap::new() did not finish)."),
+            "unknown or ended ids (anything that INSERTS into a HashMap does not finish; operations on empty tables do, with "
+            "std::hash::RandomState::new stubbed by fixed keys)."),
     "C10": ("§5 C10",
             "Solver-decided as post-state independence: after seek(Start(p)) the observable reader state of the encryption and compression "
             "readers is a function of p and the stream only, whatever the (fully symbolic) pre-state; per-file reader bookkeeping for any "
@@ -105,9 +107,10 @@ CLAIMS = {
             "(PEM parsing, RNG, HashMaps; seeded change C20-B there is missed)."),
     "C14": ("§5 C14",
             "Solver-decided: when its input ends the fail-safe decompressor first delivers everything the decoder still holds (no Ok(0)/Err "
-            "with pending output), and flush of the position layer reaches the inner writer.",
-            CONTRACT_NOTE + "Assumes brotli's flush makes all input decodable (brotli contract). Not decided: flush propagation through the "
-            "compression WRITER (seeded change C14-A there is missed), the repair loop."),
+            "with pending output); flush of the position layer and of the compression writer (any block fill, also exactly 4 MiB) flushes "
+            "the compressor first and reaches the inner writer; the unauthenticated chunk load keeps a complete chunk whose tag is missing.",
+            CONTRACT_NOTE + "Assumes brotli's flush makes all input decodable (brotli contract). Not decided: write()/finalize() of the "
+            "compression writer, the repair loop."),
 }
 
 NOT_APPLICABLE = {
